@@ -80,17 +80,19 @@ Definition cres_eqb (a b : cres) : bool :=
   | _, _ => false
   end.
 
-(* argument validation + construction of the command: what the public function does before
+(* (The histories of this model use ASCII names: the lower-cased form that
+   check_label_lengths also tests is `Bytes.lower`; Unicode case mapping is C15's matter.)
+   argument validation + construction of the command: what the public function does before
    send_cmd.  Ok c = the command to send; Err = Error::Msg returned; Panic = caller panics *)
 Definition prepare (c : call) (ch : N) : res cmd :=
   match c with
-  | CBrowse ty co => let? _ := api_browse ty in Ok (QBrowse ty co ch)
+  | CBrowse ty co => let? _ := api_browse lower ty in Ok (QBrowse ty co ch)
   | CStopBrowse ty => Ok (QStopBrowse ty)
-  | CResolve h => let? _ := api_resolve_hostname h in Ok (QResolve h ch)
+  | CResolve h => let? _ := api_resolve_hostname lower h in Ok (QResolve h ch)
   | CStopResolve h => Ok (QStopResolve h)
   | CRegister ty name host =>
     let? (tyd, sub, full, server) := si_names ty name host in
-    let? _ := api_register_names full server sub in
+    let? _ := api_register_names lower full server sub in
     Ok (QRegister tyd full)
   | CUnregister n => Ok (QUnregister (lower n) ch)
   | CMonitor => Ok (QMonitor ch)
